@@ -147,6 +147,7 @@ def SubOk (f : Font) : Subtable → Bool
       r.all (fun l => l.all (· < f.numGlyphs))
   | .gsub4_1 cov r => cov != [] && ascending cov && cov.length == r.length && cov.all (· < f.numGlyphs) &&
       r.all (fun ligs => ligs != [] && ligs.all fun lig => lig.2 < f.numGlyphs && lig.1.all (· < f.numGlyphs))
+  | _ => false
 
 def subType : Subtable → Nat
   | .gsub1_1 .. => 1
@@ -154,6 +155,7 @@ def subType : Subtable → Nat
   | .gsub2_1 .. => 2
   | .gsub3_1 .. => 3
   | .gsub4_1 .. => 4
+  | _ => 0
 
 /-- one or more subtables, all of the lookup's type, separated by `||` in the notation -/
 def LookupOk (f : Font) (l : Lookup) : Bool :=
@@ -222,6 +224,24 @@ def cross : List Lookup := (univ1_1 fontN).take 2 ++ univ2wide.take 1 ++ univ3wi
 example : (univ1_1 fontU ++ univ1_2 ++ univ2 ++ univ2wide ++ univ3 ++ univ3wide ++ univ4).all
     (fun l => LookupOk fontU l && LookupOk fontN l) = true := by decide +kernel
 
+/-- the glyph-list notation alone: what `writeGlyphList` writes (followed by a line break) is
+read back by `readGlyphList` as the same list -/
+def glOk (f : Font) (l : List Nat) : Bool :=
+  let toks := lexBytes ((newExplainer f).writeGlyphList l ++ [10])
+  match (readGlyphList f (toks.length + 2)).run { toks := toks, backlog := [], last := zeroTok } with
+  | .ok (r, _) => r == l
+  | .error _ => false
+
+/-- FULL statement for glyph lists: every list of glyphs of a font of the domain is read back. -/
+def C19_glyphlist_roundtrip_full : Prop :=
+  ∀ (f : Font) (l : List Nat), FontOk f = true → (∀ g ∈ l, g < f.numGlyphs) → glOk f l = true
+
+/-- Proved part: all glyph lists of length ≤ 3 over both fonts (numbers; names, an unnamed
+glyph, strings with `\"` and `\\`, a glyph reached from two runes). -/
+theorem C19_glyphlist_roundtrip_partial :
+    ∀ l ∈ listsUpTo [0, 1, 2, 3, 4] 3, glOk fontU l = true ∧ glOk fontN l = true := by
+  decide +kernel
+
 /-- GSUB 1 (single substitution), proved part of `C19_roundtrip_full 1`: every format 1.1 and 1.2
 lookup of the universes round-trips over both fonts (numbers and ranges; names and strings). -/
 theorem C19_roundtrip_gsub1_partial :
@@ -261,6 +281,61 @@ theorem C19_roundtrip_subtables_partial :
       rtOk fontN multi = true := by
   decide +kernel
 
+/-! GPOS 1 and 2 (`ExplainGpos`, lookups joined by a line break) -/
+
+def rtOkP (f : Font) (ls : List Lookup) : Bool :=
+  match parseBytes f (explainGpos f ls) with
+  | .ok r => r == normalize ls
+  | .error _ => false
+
+def vrs : List (Option VR) :=
+  [none, some ⟨1, 0, 0, 0⟩, some ⟨0, -2, 0, 0⟩, some ⟨0, 0, 500, 0⟩, some ⟨0, 0, 0, -3⟩, some ⟨-32768, 32767, 1, -1⟩,
+   some ⟨0, 0, 0, 0⟩]
+
+def pas : List PairAdj := [(none, none), (some ⟨1, 0, 0, 0⟩, none), (none, some ⟨0, 0, 0, 7⟩),
+  (some ⟨0, -5, 2, 0⟩, some ⟨3, 0, 0, 0⟩), (some ⟨0, 0, 0, 0⟩, some ⟨0, 0, 0, 0⟩)]
+
+def univP1 : List Lookup :=
+  ((covs [1, 2, 4]).flatMap fun cov => vrs.map fun v =>
+      ({ typ := 1, flags := 9, subtables := [.gpos1_1 cov v] } : Lookup)) ++
+  ((covs [1, 3]).flatMap fun cov => (assignments vrs cov).map fun a =>
+      ({ typ := 1, flags := 0, subtables := [.gpos1_2 cov a] } : Lookup)) ++
+  [{ typ := 1, flags := 2, subtables := [.gpos1_2 [2] [some ⟨1, 2, 3, 4⟩], .gpos1_1 [1, 2] none, .gpos1_1 [3] (some ⟨0, 0, 1, 0⟩)] }]
+
+def univP2 : List Lookup :=
+  (pas.flatMap fun a => pas.map fun b =>
+      ({ typ := 2, flags := 4, subtables := [.gpos2_1 [((1, 2), a), ((1, 4), b), ((3, 1), a)]] } : Lookup)) ++
+  (pas.flatMap fun a => pas.map fun b =>
+      ({ typ := 2, flags := 0, subtables :=
+          [.gpos2_2 [1, 2, 3] [(1, 1), (3, 2), (4, 1)] [(2, 1)] [[a, b], [b, a], [a, a]]] } : Lookup)) ++
+  [{ typ := 2, flags := 1, subtables :=
+      [.gpos2_2 [2] [(2, 1)] [(1, 2), (3, 1)] [[pas[1]!, pas[2]!, pas[3]!], [pas[3]!, pas[0]!, pas[1]!]],
+       .gpos2_1 [((2, 2), pas[3]!)],
+       .gpos2_2 [1, 4] [(4, 1)] [(4, 1)] [[pas[0]!, pas[1]!], [pas[2]!, pas[3]!]]] }]
+
+/-- FULL statement for GPOS type `t` (1, 2), over lookups whose subtables are well-formed for the
+font (coverage ascending, glyphs inside the font, class numbers 1…k all used, matrix of
+(classes₁+1) × (classes₂+1) entries, values in int16): deferred to the correspondence
+(`dsl.roundtrip`, `dsl.modelrt` with `tab=gpos`). -/
+def C19_roundtrip_gpos_full (t : Nat) (dom : Font → Lookup → Prop) : Prop :=
+  ∀ (f : Font) (ls : List Lookup), FontOk f = true → (∀ l ∈ ls, dom f l ∧ l.typ = t) →
+    parseBytes f (explainGpos f ls) = .ok (normalize ls)
+
+/-- GPOS 1 (single adjustment), proved part: formats 1.1 and 1.2, every value-record shape
+(`_`, single fields, all four fields at the int16 limits, an all-zero record coming back as
+`_`), several subtables — over both fonts. -/
+theorem C19_roundtrip_gpos1_partial :
+    ∀ l ∈ univP1, rtOkP fontU [l] = true ∧ rtOkP fontN [l] = true := by
+  decide +kernel
+
+/-- GPOS 2 (pair adjustment), proved part: format 2.1 (glyph pairs) and format 2.2 (class
+matrix, classes with one or two glyphs), second value records, several subtables, and two
+lookups in one description — over both fonts. -/
+theorem C19_roundtrip_gpos2_partial :
+    (∀ l ∈ univP2, rtOkP fontU [l] = true ∧ rtOkP fontN [l] = true) ∧
+    rtOkP fontN (univP2.take 2 ++ univP1.take 2) = true := by
+  decide +kernel
+
 /-- Several lookups in one description (every pair of a small cross-section). -/
 theorem C19_roundtrip_lists_partial :
     ∀ a ∈ cross, ∀ b ∈ cross, rtOk fontN [a, b] = true := by
@@ -290,9 +365,9 @@ def C19_total_full : Prop :=
 
 /-- The proved part: for every font and every text (any bytes), the model of `Parse` — lexer,
 item supply with push-back, `fatal`, lookup flags, glyph lists with names, numbers, strings and
-ranges, GSUB 1–4 with several subtables — returns lookups, or an error whose line number is
-≥ 1, or stops at a lookup form the model does not cover (GSUB 5/6, GPOS 1–4: marker
-`unmodelled`).  No loop of the model runs out of fuel (that would be an error of line 0 with
+ranges, GSUB 1–4 and GPOS 1–2 with several subtables, value records, class lists and adjust
+matrices — returns lookups, or an error whose line number is ≥ 1, or stops at a lookup form the
+model does not cover (GSUB 5/6, GPOS 3/4: marker `unmodelled`).  No loop of the model runs out of fuel (that would be an error of line 0 with
 another marker). -/
 theorem C19_total_partial (f : Font) (bs : List Nat) :
     match parseBytes f bs with
